@@ -29,8 +29,7 @@ Print Assumptions C14_crash_points.
    records were written (none included) and close() was reached.  [file_left c ops] = (bytes on disk in the
    last good state, exception): close raises IOError in its count check, before any seek or write, and the
    file it leaves is rejected by the reader (empty file, or the box seek lands beyond the end of the data).
-   More records than announced (k > N) is not covered by a theorem: the reader then takes record N as the box
-   line and rejects it unless that record consists of numeric tokens only (K and S cover it). *)
+   More records than announced: see C14_overfull_refused below. *)
 Theorem C14_failing_close : forall (c : wconf) (w d : nat) (vel : bool) (recs : list grec) (N : Z),
   wd_of c = (w, d) -> 1 <= d -> d + 4 <= w -> title_ok c -> box_ok (c_box c) ->
   Forall (rec_ok w vel) recs ->
@@ -39,6 +38,23 @@ Theorem C14_failing_close : forall (c : wconf) (w d : nat) (vel : bool) (recs : 
     ((Z.of_nat (length f) + N * Z.of_nat (line_len w vel + 1) < SEEK_LIMIT)%Z -> read_gro f = Err EIO).
 Proof. exact failing_close. Qed.
 Print Assumptions C14_failing_close.
+
+(* D18.  More records than announced cannot reach the file: once the announced count N is on disk, writeline
+   refuses the next record with IOError and writes nothing ([w_record]: count_reached).  For every run of the
+   domain with the count announced (N = number of records) and ANY continuation of its record writes by a further
+   record and further operations, the run stops at that record with IOError and leaves the N records without
+   box line - the crash point "before close" of C14_crash_points -, which the reader rejects.  Together with
+   C14_crash_points and C14_failing_close: no history of writer operations leaves an accepted file except a
+   close() that completed. *)
+Theorem C14_overfull_refused : forall (c : wconf) (w d : nat) (vel : bool) (recs : list grec)
+                                      (extra : grec) (more : list wop),
+  run_ok c w d vel recs -> c_natoms c = Some (Z.of_nat (length recs)) ->
+  exists f0, write_gro c recs = Ok f0 /\
+    ((Z.of_nat (length f0) < SEEK_LIMIT)%Z ->
+     exists f, file_left c (map OpRec recs ++ OpRec extra :: more) = Ok (f, Some EIO) /\
+               read_gro f = Err EIO).
+Proof. exact overfull_refused. Qed.
+Print Assumptions C14_overfull_refused.
 
 (* [rejected r]: r = Err e with e <> EType, i.e. a definite exception of the reader (IOError,
    IndexError or ValueError), never the model's "text outside the modelled subset" verdict.
@@ -122,4 +138,28 @@ Proof.
   split.
   - intros k [<-|[<-|[<-|[]]]]; vm_compute; reflexivity.
   - vm_compute. reflexivity.
+Qed.
+
+(* the D18 witness: announced 1, a second record made of numeric tokens only ('1e5' names, velocities).  The
+   second writeline is refused, the file left holds one record and no box line, and is rejected; a with block
+   that then closes the file leaves the complete one-atom file *)
+Definition d18_conf : wconf :=
+  mkwconf None (Some 1%Z) None (BoxVec (mkbentry (mkdec false 300000) true)
+          (mkbentry (mkdec false 400000) true) (mkbentry (mkdec false 500000) true)).
+Definition d18_rec1 : grec :=
+  mkgrec 1 ["S"; "O"; "L"] ["O"; "W"] 1 (mkdec false 100, mkdec false 200, mkdec false 300)
+         (Some (mkdec false 100, mkdec false 200, mkdec false 300)).
+Definition d18_rec2 : grec :=
+  mkgrec 1 ["1"; "e"; "5"] ["1"; "e"; "5"] 2 (mkdec false 400, mkdec false 500, mkdec false 600)
+         (Some (mkdec false 400, mkdec false 500, mkdec false 600)).
+Example C14_d18_witness :
+  match file_left d18_conf (write_ops [d18_rec1; d18_rec2]) with
+  | Ok (f, Some EIO) => read_gro f = Err EIO /\ Ok f = file_after d18_conf [OpRec d18_rec1]
+  | _ => False
+  end /\
+  run_ok d18_conf 8 3 true [d18_rec1] /\ c_natoms d18_conf = Some (Z.of_nat (length [d18_rec1])).
+Proof.
+  split; [vm_compute; split; reflexivity|]. split; [|reflexivity].
+  constructor; try reflexivity; try (simpl; lia); try discriminate.
+  repeat constructor; simpl; try lia; try reflexivity.
 Qed.
